@@ -56,7 +56,8 @@ class RandomSuperclassWrapper(KDWrapper):
         cls = self.perm[cls] // self.classes_per_superclass
         if self.idx_within_class is not None:
             cls += self.idx_within_class[idx] % self.superclass_splits * self.og_num_classes
-        return cls
+        # python int like every other label (numpy integers are rejected by the label encoding wrappers)
+        return int(cls)
 
     def getitem_class(self, idx, ctx=None):
         cls = self.dataset.getitem_class(idx, ctx=ctx)
